@@ -91,19 +91,12 @@ def Exceptions : List Row := [
 ]
 
 def KnownFindings : List Row := [
-  -- Elements that no declaration names occur in the schema's `<anyName/>` islands (content of math:math,
-  -- xforms:model, foreign metadata), whose content is `mixed` / `<text/>`: character data is permitted.  addText /
-  -- addCDATA with checks on consult allows_text, which cannot list them, and raise IllegalText — `<mi>x</mi>` cannot be
-  -- built through the checked API.  `*` stands for every such element (the sweep probes MathML / XForms-instance /
-  -- foreign-namespace names); the two below are the ones the tables know because odf/xforms.py has factories for them.
-  ⟨.text, n!"*", NOITEM⟩,
-  ⟨.text, n!"xforms:bind", NOITEM⟩,
-  ⟨.text, n!"xforms:instance", NOITEM⟩,
   -- draw:concave is required in both alternatives of the schema's <choice>; the table does not list it, and
   -- tests/testlengths.py::test_calls / tests/teststyleref.py::testCalls pin the bare call draw.RegularPolygon().
   ⟨.required, n!"draw:regular-polygon", n!"draw:concave"⟩
   -- (repaired in /repo and removed from this list: nine factory rows by 9cb26c9 / 3268ede, 72 table rows by
-  --  d71800a, the seven manifest-1.2 rows — manifest:start-key-generation, manifest:key-size — by the manifest repair.)
+  --  d71800a, the seven manifest-1.2 rows — manifest:start-key-generation, manifest:key-size — by 2923f81,
+  --  the three text-in-island rows (text:*, text:xforms:bind, text:xforms:instance) by 9407dde.)
 ]
 
 def inExceptions (k : Kind) (e x : Nat) : Bool := prefixExcepted e || inRows Exceptions k e x
